@@ -41,4 +41,48 @@ def taylorLoop (converged : Nat → Bool) : Nat → Nat → Nat × Bool
 /-- `failed = not converged` -/
 def taylorFailed (converged : Nat → Bool) (maxIter : Nat) : Bool := !(taylorLoop converged maxIter 0).2
 
+/-! ### the radius search of `Taylor._check_convergence` as a state machine
+
+What the numerics contribute per iteration (the outputs of `_check_fft` and `_poor_convergence`) is the input; the bookkeeping
+(`_direction_changes`, `_degenerate`, `_num_changes`, `_previous_direction`, the number of square roots applied to the growth factor)
+is the state. -/
+structure RadState where
+  dirChanges : Nat
+  degenerate : Bool
+  numChanges : Nat
+  prevDir : Option Bool
+  sqrtCount : Nat
+deriving Repr, DecidableEq
+
+/-- `fftDegenerate`, `fftSmaller`: the pair `_check_fft` returns; `poor`: `_poor_convergence` (consulted only when `fftSmaller` is false) -/
+structure RadIn where
+  fftDegenerate : Bool
+  fftSmaller : Bool
+  poor : Bool
+deriving Repr, DecidableEq
+
+def radInit : RadState := ⟨0, false, 0, none, 0⟩
+
+/-- one call of `_check_convergence(i, …)`: `(converged, new state, direction taken)`; direction `some true` = the radius shrinks -/
+def radStep (numExtrap : Nat) (s : RadState) (i : Nat) (inp : RadIn) : Bool × RadState × Option Bool :=
+  let bracket := decide (s.dirChanges > 1) || s.degenerate
+  let numChanges := if bracket then s.numChanges + 1 else s.numChanges
+  if bracket && decide (numChanges ≥ 1 + numExtrap) then (true, { s with numChanges := numChanges }, none)
+  else
+    let degenerate := if s.degenerate then true else inp.fftDegenerate
+    let needsSmaller0 := if s.degenerate then false else (inp.fftSmaller || inp.poor)
+    let needsSmaller := if degenerate then i % 2 == 0 else needsSmaller0
+    let dirChanges := match s.prevDir with
+      | some d => if needsSmaller != d then s.dirChanges + 1 else s.dirChanges
+      | none => s.dirChanges
+    let sqrtCount := if dirChanges > 0 then s.sqrtCount + 1 else s.sqrtCount
+    (false, ⟨dirChanges, degenerate, numChanges, some needsSmaller, sqrtCount⟩, some needsSmaller)
+
+/-- the loop of `Taylor.__call__` over the inputs of successive iterations: `(iterations executed, converged, final state)` -/
+def radRun (numExtrap : Nat) : RadState → Nat → List RadIn → Nat × Bool × RadState
+  | s, i, [] => (i, false, s)
+  | s, i, inp :: rest =>
+    let r := radStep numExtrap s i inp
+    if r.1 then (i + 1, true, r.2.1) else radRun numExtrap r.2.1 (i + 1) rest
+
 end Ndt
